@@ -3,6 +3,7 @@ import PkVerif.Lemmas.RefMerge
 import PkVerif.Lemmas.RefProxy
 import PkVerif.Lemmas.RefOverlay
 import PkVerif.Lemmas.RefFiles
+import PkVerif.Lemmas.RefDiskPacked
 import PkVerif.Base.Order
 /-!
 # C01 – every storage backend behaves as a content-addressed map
@@ -140,6 +141,17 @@ theorem C01_files (content : Bytes → Bytes) (ops : List Op) (hwk : ∀ op ∈ 
     (hk : ∀ op ∈ ops, Pk.Files.KeyOK Pk.Ref.gtbl op) :
     (Pk.Files.filesImpl Pk.Ref.gtbl).run (Pk.Files.filesImpl Pk.Ref.gtbl).init ops = RefMap.run [] ops :=
   Pk.Files.files_run_eq content ops hwk hk
+
+/-- **the append-only packed disk store (diskpacked)**: pack files as byte strings with `[ref size]`
+headers, an index of (pack, offset, size) rows, roll-over to a new pack for ANY maxFileSize (also one so
+small that every append rolls over), duplicate receive as a no-op, removal by overwriting the blob's
+own header and body, and enumeration as the index range scan with the skip-equal rule: it answers every
+history exactly like the reference map (byte arithmetic of offsets and extents proved, not assumed).
+`KeyOK`: received refs contain a `-` with no space after it (every real ref text does). -/
+theorem C01_diskpacked (max : Nat) (content : Bytes → Bytes) (ops : List Op)
+    (hwk : ∀ op ∈ ops, op.WK content) (hk : ∀ op ∈ ops, Pk.DiskPacked.KeyOK op) :
+    (Pk.DiskPacked.diskpackedImpl max).run (Pk.DiskPacked.diskpackedImpl max).init ops = RefMap.run [] ops :=
+  Pk.DiskPacked.diskpacked_run_eq max content ops hwk hk
 
 /-- a three-level nesting satisfies the hypotheses (non-vacuity) -/
 example : (Cfg.overlay (.shard2 .mem (.ns .mem)) (.proxy (.cond2 .mem .mem) (.memCache 100) 50)).WF = true := by decide
